@@ -38,9 +38,16 @@ def toRec (x : Sequence) : GbLayout.GbRec :=
     features := x.features.map toRFeature,
     seq := x.sequence }
 
-def refLayout (r : Reference) : GbLayout.RefLayout :=
-  { range := [], trailGap := true, authors := breaks r.authors, title := breaks r.title, journal := breaks r.journal,
+/-- the text of the REFERENCE line number `i + 1` -/
+def refHeadText (i : Nat) (r : Reference) : Str := Location.itoa (i + 1) ++ "  ".toList ++ r.range
+
+def refLayout (i : Nat) (r : Reference) : GbLayout.RefLayout :=
+  { range := if r.range = [] then [] else breaks (refHeadText i r), trailGap := true, authors := breaks r.authors, title := breaks r.title, journal := breaks r.journal,
     pubmed := breaks r.pubMed, remark := breaks r.remark }
+
+def refLayouts : Nat → List Reference → List GbLayout.RefLayout
+  | _, [] => []
+  | i, r :: rs => refLayout i r :: refLayouts (i + 1) rs
 
 /-- `Build` writes five blanks before every LOCUS field and nothing for an empty field, so the gap
 before a present field is `5 · (1 + number of empty fields directly before it)`; `absent` = that
@@ -63,22 +70,29 @@ def polyLayout (x : Sequence) : GbLayout.RecLayout :=
     locusTrail := 5 * aDate,
     definition := breaks m.definition, accession := breaks m.accession, version := breaks m.version,
     keywords := breaks m.keywords, source := breaks m.source, organism := breaks m.organism,
-    refs := m.references.map refLayout,
+    refs := refLayouts 0 m.references,
     extras := (sortedEntries m.other).map fun kv => breaks kv.2,
     feats := [], originTrail := false, blockLen := 9, perLine := 5 }
 
-/-- the REFERENCE line (number, two blanks, range — the range may be empty) is not wrapped -/
+/-- the REFERENCE line (number, two blanks, range) is wrapped WITHOUT LOSS: its own two blanks do not
+fall on a wrap point (a line `REFERENCE   1` followed by the range on the next line is read back
+correctly by the real parser, but property C01's layouts never break next to a blank); with an empty
+range the line `REFERENCE   n  ` fits -/
 def refsFit : Nat → List Reference → Bool
   | _, [] => true
-  | i, r :: rs => decide ((Location.itoa (i + 1)).length + 2 + r.range.length ≤ 68) && refsFit (i + 1) rs
+  | i, r :: rs =>
+    (if r.range = [] then decide ((refHeadText i r).length ≤ 68)
+     else (wrapString (refHeadText i r) 68).length == (refHeadText i r).length) && refsFit (i + 1) rs
 
-/-- the part of the round-trip domain covered by the theorem `parse_build_partial`: `wfSeq x`, the
-record as C01's abstract record type expresses it is in C01's domain (`GbLayout.wf (toRec x)`: any of
-poly's molecule types or none, any or no topology / division / length / date — a date with a real
-month —, extra keywords and qualifier keys as C01 admits them, quotation marks only inside values,
-location texts of one INSDC-shaped expression, fewer than 10^8 bases), and no REFERENCE line is wrapped -/
+/-- the part of the round-trip domain covered by the theorem `parse_build_partial`: the judge's
+round-trip domain minus the two known findings (`wfLayoutG`: metadata may hold runs of blanks none of
+which falls on a wrap point), positional reference numbers, REFERENCE lines wrapped without loss, and
+the record as C01's abstract record type expresses it lies in C01's domain (`GbLayout.wf (toRec x)`) -/
 def covered (x : Sequence) : Bool :=
-  wfSeq x && refsFit 0 x.metadata.references && GbLayout.wf (toRec x)
+  let m := x.metadata
+  wfLayoutG x && !(m.locus.circular && m.locus.linear) && wfRefIndex 0 m.references
+    && m.other.all (wfOtherJ 11) && x.features.all wfFeatureRT
+    && refsFit 0 m.references && GbLayout.wf (toRec x)
 
 def refApprox (a : Reference) (b : Genbank.Reference) : Bool :=
   a.index == b.index && a.authors == b.authors && a.title == b.title && a.journal == b.journal
